@@ -114,13 +114,22 @@ func runC16(c *core.Ctx) error {
 	avoid := c.KF.Avoid()
 	total := c.Pick(1200, 8000)
 	chunks := c.Pick(12, 40)
-	c.Ev.Coverage.Rule = "cases = (degenerate schema drawn by rapid: type cycles through singular/repeated/map/oneof fields, mutual cycles, chains and nested definitions to depth 60, 100-400 fields, very long names, well-known types, empty messages/services, shared request types, missing go_package, odd identifiers; one case in two also carries one misused annotation from the C12 catalogue at a random placement, in 3 of 5 of those cases on a message that is itself the response or request type of an RPC) x plugin x parameters (generate_mock, format, paths, and malformed parameter strings: bare words, stray commas, empty keys or values); each case is one plugin process judged on exit status, stdout, stderr, wall time (20 s, re-run alone before it counts) and peak RSS (2 GiB). Non-trivial = schema has a type cycle, depth >= 8, >= 100 fields, an empty service, a well-known type or a missing go_package; distinct by (schema, plugin, parameter)."
+	c.Ev.Coverage.Rule = "cases = (one in four an ordinary schema from the full profile with every annotation, otherwise a degenerate schema drawn by rapid: type cycles through singular/repeated/map/oneof fields, mutual cycles, chains and nested definitions to depth 60, 100-400 fields, very long names, well-known types, empty messages/services, shared request types, missing go_package, odd identifiers; one case in two also carries one misused annotation from the C12 catalogue at a random placement, in 3 of 5 of those cases on a message that is itself the response or request type of an RPC) x plugin x parameters (generate_mock, format, paths, and malformed parameter strings: bare words, stray commas, empty keys or values); each case is one plugin process judged on exit status, stdout, stderr, wall time (20 s, re-run alone before it counts) and peak RSS (2 GiB). Non-trivial = schema has a type cycle, depth >= 8, >= 100 fields, an empty service, a well-known type or a missing go_package; distinct by (schema, plugin, parameter)."
 	c.Ev.Assumptions = []string{"termination is observed with a bound (20 s, 2 GiB), not proved", "descriptor well-formedness is enforced by the generator and protodesc.NewFiles, standing in for protoc"}
+	full := schema.ProfileFull(avoid)
 	for k := 0; k < chunks; k++ {
 		var last *c16Case
 		n := 0
 		res := rapidx.Check("C16", total/chunks, uint64(c.SubSeed(k)), 60*time.Second, func(t *rapid.T) {
-			s := schema.GenerateDegenerate(t, "d0001", avoid)
+			var s *schema.Schema
+			if rapid.IntRange(0, 3).Draw(t, "annotated_schema") == 0 {
+				// every fourth descriptor set is an ordinary, fully annotated one: each annotation has code paths of
+				// its own in every plugin (warnings, helper tables, codec files)
+				s = schema.Generate(t, full, "d0001")
+				c.Ev.Class("schema_source:full_profile", 1)
+			} else {
+				s = schema.GenerateDegenerate(t, "d0001", avoid)
+			}
 			misused := ""
 			if rapid.IntRange(0, 1).Draw(t, "misuse") == 0 {
 				// a well-formed request may carry a misused annotation: the answer is then an error message (or
